@@ -183,6 +183,7 @@ pub fn launch(
     let path = path.to_owned();
     let source = source.to_owned();
     let plan = plan.clone();
+    let _stack_displacement = StackDisplacement::new(&plan);
     let handle = std::thread::Builder::new()
         .stack_size(STACK_SIZE)
         .spawn(move || {
@@ -238,6 +239,8 @@ pub fn iteration_orders(plan: &Plan) -> Vec<Vec<usize>> {
 }
 
 unsafe extern "C" {
+    fn mmap(addr: *mut std::ffi::c_void, len: usize, prot: std::ffi::c_int, flags: std::ffi::c_int, fd: std::ffi::c_int, off: i64) -> *mut std::ffi::c_void;
+    fn munmap(addr: *mut std::ffi::c_void, len: usize) -> std::ffi::c_int;
     fn dup(fd: std::ffi::c_int) -> std::ffi::c_int;
     fn dup2(old: std::ffi::c_int, new: std::ffi::c_int) -> std::ffi::c_int;
 }
@@ -345,6 +348,7 @@ pub fn launch_main(
     let source = source.to_owned();
     let plan = plan.clone();
     let capture_dir = capture_dir.to_path_buf();
+    let _stack_displacement = StackDisplacement::new(&plan);
     let handle = std::thread::Builder::new()
         .stack_size(STACK_SIZE)
         .spawn(move || {
@@ -387,4 +391,39 @@ pub fn launch_main(
             "panic".to_owned()
         }
     })
+}
+
+/// Layout seam, in-process side, for the launch thread's *stack*: an address-space reservation
+/// made just before the thread is spawned moves the stack mapping the thread gets by that many
+/// pages (thread stacks are mmap'd top-down). Only the page part of the plan's displacement is
+/// used; it covers every residue modulo the 16 MiB stack size.
+pub struct StackDisplacement {
+    addr: *mut std::ffi::c_void,
+    len: usize,
+}
+
+impl StackDisplacement {
+    pub fn new(plan: &Plan) -> StackDisplacement {
+        let len = (plan.skew_mmap % (16 << 20)) as usize;
+        if len == 0 {
+            return StackDisplacement { addr: std::ptr::null_mut(), len: 0 };
+        }
+        // PROT_NONE, MAP_PRIVATE | MAP_ANONYMOUS | MAP_NORESERVE
+        // SAFETY: a fresh anonymous reservation that nothing else refers to.
+        let addr = unsafe { mmap(std::ptr::null_mut(), len, 0, 0x02 | 0x20 | 0x4000, -1, 0) };
+        if addr as isize == -1 {
+            StackDisplacement { addr: std::ptr::null_mut(), len: 0 }
+        } else {
+            StackDisplacement { addr, len }
+        }
+    }
+}
+
+impl Drop for StackDisplacement {
+    fn drop(&mut self) {
+        if !self.addr.is_null() {
+            // SAFETY: the reservation made in `new`.
+            unsafe { munmap(self.addr, self.len) };
+        }
+    }
 }
